@@ -141,12 +141,15 @@ type Cluster struct {
 	Rng               *vbase.Rng
 	lateTimers        []lateTimer
 	WrongFetchReplies int
-	staggerFirst      *Actor // directed scenarios: the replica whose timer is the first to fire in the next idle round
-	Trace             []TraceEntry
-	Mon               *Monitors
-	R                 *vbase.Result
-	Panic             any
-	PanicAt           string
+	// CachedBatchWithoutWakeup counts observations of a command cache that holds a full fresh batch but no wake-up token.
+	CachedBatchWithoutWakeup   int
+	OnCachedBatchWithoutWakeup func(a *Actor, fresh int)
+	staggerFirst               *Actor // directed scenarios: the replica whose timer is the first to fire in the next idle round
+	Trace                      []TraceEntry
+	Mon                        *Monitors
+	R                          *vbase.Result
+	Panic                      any
+	PanicAt                    string
 	// statistics of this execution
 	Delivered, Dropped, Dups, Timeouts, ByzActs, PartChanges, Crashes int
 	FaultSteps                                                        int
@@ -712,7 +715,15 @@ func (f *cmdFeed) ensure(a *Actor) {
 	if a.Node == nil || a.Crashed {
 		return
 	}
-	_, token, _, by, ok := vk.CmdCacheFreshBy(a.Node.Cmds)
+	fresh, token, _, by, ok := vk.CmdCacheFreshBy(a.Node.Cmds)
+	if ok && !token && fresh >= int(max(f.c.Cfg.BatchSize, 1)) && !f.c.Cfg.Clients {
+		// no client goroutine is running (commands are added by this thread): a full batch of fresh commands without a
+		// pending wake-up means the replica's next Get would park although commands are available
+		f.c.CachedBatchWithoutWakeup++
+		if f.c.OnCachedBatchWithoutWakeup != nil {
+			f.c.OnCachedBatchWithoutWakeup(a, fresh)
+		}
+	}
 	if ok && (by[uint32(1000+a.Idx)] < 3*int(max(f.c.Cfg.BatchSize, 1)) || !token) {
 		f.fill(a)
 	}
